@@ -82,6 +82,10 @@ MUTANTS = [
     ("fortran-order reshape", "AegeanTools/MIMAS.py",
      "bigmask = bigmask.reshape(data.shape)",
      "bigmask = bigmask.reshape(data.shape, order='F')", "C10-R7"),
+    ("sky2ang parks non-finite angles at zero (seed C10c)",
+     "AegeanTools/regions.py",
+     "        theta_phi = self.sky2ang(sky)\n",
+     "        theta_phi = np.nan_to_num(self.sky2ang(sky))\n", "C10-R8"),
 ]
 TWINS = [
     ("vectorised pixel grid", "AegeanTools/MIMAS.py",
@@ -545,6 +549,14 @@ def run(ctx):
         ctx.check("C10-R4", mf, "negate forwarded in 2-d branch",
                   "negate" in inv, "the 2-d branch drops the negate option",
                   node=c)
+    # ---------------------------------------------------------------- R8
+    ctx.rule("C10-R8", "undefined coordinates are never inside: the "
+             "non-finite mask of Region.sky_within is taken from values that "
+             "are still non-finite, is the last writer of the result and is "
+             "not widened (shared with C09-R3)")
+    from ..regionmodel import region_methods
+    from .c09 import nonfinite_rule
+    nonfinite_rule(ctx, prog, region_methods(prog), "C10-R8")
     # ---------------------------------------------------------------- R6
     ctx.rule("C10-R6", "empty tables / position lists: the position array "
              "handed to the region test keeps two columns for zero rows")
